@@ -7,6 +7,7 @@ import (
 	"errors"
 	"fmt"
 	"math/big"
+	"reflect"
 	"sort"
 	"strings"
 	"sync"
@@ -449,4 +450,48 @@ func (w *PoolWorld) AddNode(wallet *Ident, nodeID string) error {
 func (w *PoolWorld) Withdraw(wallet *Ident) error {
 	n := w.nextNonce()
 	return w.Payment.Withdraw(context.Background(), wallet.SignWallet("pool_withdraw", n), wallet.Wallet, n)
+}
+
+// RegistryKey renders the pool's connection registries - every map field of VipnodePool that maps
+// node ids to connections or connections to node ids, found by type, not by name - canonically, with
+// connections named by the fake host behind them. It is the implementation's own notion of "which
+// host is registered where" and belongs into BFS state keys of checks about registrations.
+func (w *PoolWorld) RegistryKey() string {
+	v := reflect.ValueOf(w.Pool).Elem()
+	svcT := reflect.TypeOf((*jsonrpc2.Service)(nil)).Elem()
+	idT := reflect.TypeOf(store.NodeID(""))
+	name := func(x reflect.Value) string {
+		if !x.IsValid() || (x.Kind() == reflect.Interface && x.IsNil()) {
+			return "<nil>"
+		}
+		switch s := x.Interface().(type) {
+		case *FakeHost:
+			return s.Name
+		case HostWithAddr:
+			return s.Name
+		case store.NodeID:
+			return Short(string(s))
+		}
+		return fmt.Sprintf("%T", x.Interface())
+	}
+	var out []string
+	for i := 0; i < v.NumField(); i++ {
+		f := v.Field(i)
+		if f.Kind() != reflect.Map {
+			continue
+		}
+		kt, vt := f.Type().Key(), f.Type().Elem()
+		if !((kt == idT && vt == svcT) || (kt == svcT && vt == idT)) {
+			continue
+		}
+		f = accessibleCopy(f)
+		var entries []string
+		it := f.MapRange()
+		for it.Next() {
+			entries = append(entries, name(it.Key())+"->"+name(it.Value()))
+		}
+		sort.Strings(entries)
+		out = append(out, fmt.Sprintf("%d{%s}", i, strings.Join(entries, ",")))
+	}
+	return strings.Join(out, ";")
 }
